@@ -173,6 +173,30 @@ theorem half_encode_decode (E : Env ℝ) (hE : Half.RealEnv E) (x : ℝ) (hx : |
 theorem half_decode_encode (E : Env ℝ) (hE : Half.RealEnv E) (h : Nat) (hh : h < 65536) (he : expOf h ≠ 31)
     (hz : h ≠ 32768) : encode (halfToFloat E h) = h := encode_decode_id E hE h hh he hz
 
+/-- VERSION-1 RECORDS (the counterpart of `spz_dequant_is_published`, which covers version 2): every position
+    coordinate of the dequantisation of a version-1 record is the IEEE binary16 datum of its two bytes read
+    little endian (`binary.Read(in, LittleEndian, &[]uint16)`) — for every byte pair.  With
+    `spz_decode_refEncode` (layout): splat `i` of `spz.Read`'s result on a version-1 stream carries the binary16
+    values of record `i`. -/
+theorem spz_dequant_v1_position_is_binary16 (E : Env ℝ) (hE : Half.RealEnv E) (h : Header) (hv : h.version = 1)
+    (p : Packed) :
+    let datum := fun (b0 b1 : UInt8) =>
+      let w : BitVec 16 := BitVec.ofNat 16 (b0.toNat + 256 * b1.toNat)
+      embed E (Ieee.binary16 w.msb (w.extractLsb' 10 5).toNat (w.extractLsb' 0 10).toNat)
+    (dequant E h p).pos = ⟨datum (byteAt p.pos 0) (byteAt p.pos 1), datum (byteAt p.pos 2) (byteAt p.pos 3),
+      datum (byteAt p.pos 4) (byteAt p.pos 5)⟩ := by
+  have key : ∀ b0 b1 : UInt8, halfCoord E b0 b1 =
+      (let w : BitVec 16 := BitVec.ofNat 16 (b0.toNat + 256 * b1.toNat)
+       embed E (Ieee.binary16 w.msb (w.extractLsb' 10 5).toNat (w.extractLsb' 0 10).toNat)) := by
+    intro b0 b1
+    have hw : (BitVec.ofNat 16 (b0.toNat + 256 * b1.toNat)).toNat = b0.toNat + 256 * b1.toNat := by
+      rw [BitVec.toNat_ofNat]
+      have := b0.toNat_lt; have := b1.toNat_lt
+      omega
+    simp only []
+    rw [← half_is_binary16 E hE, hw]; rfl
+  simp only [dequant, if_pos hv, key]
+
 /-! ### non-vacuity: an environment satisfying `RealEnv` with distinct symbolic `inf`/`nan`, closed values, guards -/
 
 /-- the decoder's arithmetic at ℝ; `inf`, `nan` are distinct tokens no finite half equals -/
